@@ -408,7 +408,8 @@ def scale_body(c):
     w = float(arr(m2()).reshape(-1)[0])
     want = v - (n - 1) * math.log(f)
     _, err = reference(g, p)
-    if abs(w - want) > 2e-9 * max(1.0, abs(want), abs(v)) + 8 * err:
+    _, err2 = reference(cc["g"], pp)
+    if abs(w - want) > 4e-9 * max(1.0, abs(want), abs(v)) + 8 * (err + err2):
         return res.fail("mismatch", {"scaled": w, "expected": want, "factor": f})
     return res
 
